@@ -127,7 +127,7 @@ def step (st : St) (ws : List String) : St × String :=
     match findInst st (natOr id) with
     | some i => (setInst st { i with s := write i.s (hexOr k) true [], spec := ⟨hexOr k, 0, true, []⟩ :: i.spec }, "ok")
     | none => (st, "no-instance")
-  | ["settle", _] => (st, "ok")
+  | ["settle", id] => (st, if (findInst st (natOr id)).isSome then "ok" else "no-instance")
   | ["ckpt", id, cid] =>
     match findInst st (natOr id), hint with
     | some i, ["ckpt", levels, wal] =>
@@ -146,7 +146,11 @@ def step (st : St) (ws : List String) : St × String :=
     if found.length != handles.length then (st, "no-handle") else
     let s := openDB own (found.map (·.ck))
     let spec := found.flatMap fun sv => sv.spec.filter (fun e => own e.key)
-    (setInst st ⟨natOr id, r, s, spec⟩, s!"ok seq={s.seq}")
+    (setInst st ⟨natOr id, r, s, spec⟩, "ok")
+  | ["seq", id] =>
+    match findInst st (natOr id) with
+    | some i => (st, s!"seq={i.s.seq}")
+    | none => (st, "no-instance")
   | ["get", id, k] =>
     match findInst st (natOr id) with
     | some i => (st, withSpec (showAnswer (answer (getR i.s (hexOr k)))) (showAnswer (answer (specGet i.spec (hexOr k)))))
